@@ -30,6 +30,8 @@ func propC06(w *World, r *Report) {
 		}
 	}
 	RunMemoKey(w, r, gt)
+	RunIterFresh(w, r, gt)
+	r.Floor("iterfresh", 3)
 	RunControl(r, "memokey", "ctlContext).filter", RunMemoKey)
 	RunControl(r, "slicealias", "ctlSliceAlias", RunSliceAlias)
 	r.Scope["library_functions_scanned"] = len(w.LibFuncs())
@@ -64,6 +66,9 @@ func propC07(w *World, r *Report) {
 	br.covPairs = pairs
 	r.Note("coverage/array pairs used by apply methods: %d", len(pairs))
 	RunCovArray(w, r, br, pairs)
+	// the truncation branch of the pairing (array = array[:len(cov)]) is
+	// only sound for dense tables: distinct glyph ids, indices 0..len-1
+	RunCovMono(w, r, br)
 	RunPosContracts(w, r, br, fns)
 	RunBounds(w, r, "bounds", br, fns)
 	runLoopTerm(w, r, br, fns, false)
